@@ -246,4 +246,165 @@ theorem renamescript_congr (a b : Client) (h : SameC a b) (old new : Bytes) :
                     · simp only [hact, Bool.false_eq_true, if_false]
                       exact deletescript_congr c3 d3 hc3 old
 
+/-! ## the remaining operations: CAPABILITY, LOGOUT, the greeting, SASL, `connect` without STARTTLS -/
+
+/-- a two-branch continuation applied to related results gives related results -/
+theorem bind_congr {α β : Type} (x y : Res α) (h : RelC x y) (k : Except RErr α → Client → Res β)
+    (hk : ∀ v c d, SameC c d → RelC (k v c) (k v d)) : RelC (k x.1 x.2) (k y.1 y.2) := by
+  obtain ⟨hv, hc⟩ := h
+  rw [hv]
+  exact hk _ _ _ hc
+
+theorem capability_congr (a b : Client) (h : SameC a b) : RelC (capability a) (capability b) := by
+  have hs := sendCommand_congr a b h (sb "CAPABILITY") [] [] none
+  unfold capability
+  revert hs
+  generalize sendCommand a (sb "CAPABILITY") [] [] none = x
+  generalize sendCommand b (sb "CAPABILITY") [] [] none = y
+  intro hs
+  obtain ⟨xv, xc⟩ := x
+  obtain ⟨yv, yc⟩ := y
+  obtain ⟨hv, hc⟩ := hs
+  simp only at hv hc
+  subst hv
+  cases xv with
+  | error e => exact ⟨rfl, hc⟩
+  | ok rep => exact ⟨rfl, hc⟩
+
+theorem logout_congr (a b : Client) (h : SameC a b) : RelC (logout a) (logout b) := by
+  have hs := sendCommand_congr a b h (sb "LOGOUT") [] [] none
+  unfold logout
+  revert hs
+  generalize sendCommand a (sb "LOGOUT") [] [] none = x
+  generalize sendCommand b (sb "LOGOUT") [] [] none = y
+  intro hs
+  obtain ⟨xv, xc⟩ := x
+  obtain ⟨yv, yc⟩ := y
+  obtain ⟨hv, hc⟩ := hs
+  simp only at hv hc
+  subst hv
+  cases xv with
+  | error e => exact ⟨rfl, hc⟩
+  | ok rep => exact ⟨rfl, hc⟩
+
+/-- reading a capability block (greeting, or the block after a handshake) -/
+theorem getCapabilities_congr (a b : Client) (h : SameC a b) : RelC (getCapabilities a) (getCapabilities b) := by
+  unfold getCapabilities
+  have hr := readResponse_congr none _ _ h.1
+  revert hr
+  cases readResponse none a.r with
+  | error e1 =>
+    cases readResponse none b.r with
+    | error e2 => intro hr; exact ⟨by simp only; rw [show e1 = e2 from hr], h⟩
+    | ok _ => intro hr; exact hr.elim
+  | ok p1 =>
+    cases readResponse none b.r with
+    | error _ => intro hr; exact hr.elim
+    | ok p2 =>
+      obtain ⟨r1, s1⟩ := p1
+      obtain ⟨r2, s2⟩ := p2
+      intro hr
+      obtain ⟨hrr, hs⟩ := hr
+      subst hrr
+      obtain ⟨_, g1, g2, g3, g4, g5⟩ := h
+      simp only [g3]
+      split
+      · exact ⟨rfl, hs, g1, g2, rfl, g4, g5⟩
+      · split
+        · exact ⟨rfl, hs, g1, g2, rfl, g4, g5⟩
+        · exact ⟨rfl, hs, g1, g2, rfl, g4, g5⟩
+
+theorem authWith_congr (a b : Client) (h : SameC a b) (mech login password authz : Bytes) :
+    RelC (authWith a mech login password authz) (authWith b mech login password authz) := by
+  unfold authWith
+  split
+  · exact okOf_congr _ _ (sendCommand_congr a b h _ _ _ _)
+  · split
+    · exact okOf_congr _ _ (sendCommand_congr a b h _ _ _ _)
+    · split
+      · exact okOf_congr _ _ (sendCommand_congr a b h _ _ _ _)
+      · have hs := sendCommand_congr a b h (sb "AUTHENTICATE") [.str (sb "DIGEST-MD5")] [] (some 1)
+        revert hs
+        generalize sendCommand a (sb "AUTHENTICATE") [.str (sb "DIGEST-MD5")] [] (some 1) = x
+        generalize sendCommand b (sb "AUTHENTICATE") [.str (sb "DIGEST-MD5")] [] (some 1) = y
+        intro hs
+        obtain ⟨xv, xc⟩ := x
+        obtain ⟨yv, yc⟩ := y
+        obtain ⟨hv, hc⟩ := hs
+        simp only at hv hc
+        subst hv
+        cases xv with
+        | error e => exact ⟨rfl, hc⟩
+        | ok rep => exact ⟨rfl, hc⟩
+
+theorem finishAuth_congr (a b : Client) (h : SameC a b) (sel : Option Bytes) (login password authz : Bytes) :
+    RelC (finishAuth a sel login password authz) (finishAuth b sel login password authz) := by
+  unfold finishAuth
+  cases sel with
+  | none => exact ⟨rfl, setErrmsg_congr a b h _⟩
+  | some m =>
+    simp only
+    have hs := authWith_congr a b h m login password authz
+    revert hs
+    generalize authWith a m login password authz = x
+    generalize authWith b m login password authz = y
+    intro hs
+    obtain ⟨xv, xc⟩ := x
+    obtain ⟨yv, yc⟩ := y
+    obtain ⟨hv, hc⟩ := hs
+    simp only at hv hc
+    subst hv
+    cases xv with
+    | error e => exact ⟨rfl, hc⟩
+    | ok okb =>
+      cases okb with
+      | false => exact ⟨rfl, hc⟩
+      | true =>
+        obtain ⟨g0, g1, _, g3, g4, g5⟩ := hc
+        exact ⟨rfl, g0, g1, rfl, g3, g4, g5⟩
+
+theorem authenticate_congr (a b : Client) (h : SameC a b) (login password authz : Bytes) (authmech : Option Bytes) :
+    RelC (authenticate a login password authz authmech) (authenticate b login password authz authmech) := by
+  unfold authenticate
+  have hcap : capGet a (sb "SASL") = capGet b (sb "SASL") := by simp only [capGet, h.2.2.2.1]
+  rw [hcap]
+  cases capGet b (sb "SASL") with
+  | none => exact ⟨rfl, h⟩
+  | some v => exact finishAuth_congr a b h _ _ _ _
+
+/-- two deliveries of the same server bytes to a fresh connection -/
+theorem freshConn_same (c : Client) (n1 n2 : Net) (hs : n1.stream = n2.stream) (hl : n1.later = n2.later) :
+    SameC (freshConn c n1) (freshConn c n2) := by
+  refine ⟨⟨?_, rfl, rfl, hl⟩, rfl, rfl, rfl, rfl, rfl⟩
+  simp only [freshConn, pending, hs]
+
+/-- **C05 for `connect` without STARTTLS**: the greeting, the mechanism choice, the AUTHENTICATE
+    exchange (all its steps) and the final state do not depend on how the server's bytes are cut into
+    recv results.  (With STARTTLS the statement is deliberately false: bytes that reached the buffer before
+    the handshake are discarded, bytes still in the socket are not — see C10.) -/
+theorem connect_plain_congr (c : Client) (env : ConnEnv) (n1 n2 : Net) (hs : n1.stream = n2.stream)
+    (hl : n1.later = n2.later) (login password authz : Bytes) (authmech : Option Bytes) :
+    RelC (connect c env n1 login password authz false authmech) (connect c env n2 login password authz false authmech) := by
+  unfold connect
+  split
+  · exact ⟨rfl, ⟨rfl, rfl, rfl, rfl⟩, rfl, rfl, rfl, rfl, rfl⟩
+  · have hg := getCapabilities_congr _ _ (freshConn_same c n1 n2 hs hl)
+    revert hg
+    generalize getCapabilities (freshConn c n1) = x
+    generalize getCapabilities (freshConn c n2) = y
+    intro hg
+    obtain ⟨xv, xc⟩ := x
+    obtain ⟨yv, yc⟩ := y
+    obtain ⟨hv, hc⟩ := hg
+    simp only at hv hc
+    subst hv
+    cases xv with
+    | error e => exact ⟨rfl, hc⟩
+    | ok okb =>
+      cases okb with
+      | false => exact ⟨rfl, hc⟩
+      | true =>
+        simp only [maybeTls, Bool.false_eq_true, if_false]
+        exact authenticate_congr xc yc hc _ _ _ _
+
 end Client
